@@ -7,7 +7,10 @@ PID = "C03"
 MANIFEST = {
     "technique": "Lean 4 invariants by induction over all programs of a hand model of CodeHolder (labels, fixups, bind, resolve, "
                  "embed_label[_delta]) + x86/a64 reference sites, independent reference-semantics monitor, C++/Lean correspondence",
-    "text": "Lean proves for every program (list of API calls, any interleaving): the unresolved counter equals the number of pending "
+    "text": "Lean proves by induction over ALL programs of the menu (disjoint-regions invariant, Props/C03E): after flatten + resolve every "
+            "reference ever created through a fixup designates exactly section offset(label) + label offset - site + addend under the "
+            "independent field decoder, or is still on a fixup list with an untouched zero field and the counter is positive "
+            "(resolved_ref_correct, never_truncates, count_zero_all_resolved). Also for every program (list of API calls, any interleaving): the unresolved counter equals the number of pending "
             "fixups at every step (zero iff none remain), every pending fixup sits on an unbound label or on the cross-section list "
             "naming a bound label, a fixup is dropped only after write_offset accepted exactly `label - site + addend` (never a "
             "truncated value; C17 gives the byte meaning of an accepted write), failed patches stay counted and return "
@@ -17,12 +20,13 @@ MANIFEST = {
             "references); the Lean monitor decodes every reference field of the real buffers with an independent ISA-level reading "
             "and compares with the ghost label positions.",
     "note": "Trusted: Lean kernel; Spec/RefSemantics.lean (what a reference field designates) and Spec/Offset.lean; the menu of "
-            "instruction shapes (opaque non-field bytes, compared byte for byte); harness/driver/diff. The byte-level end-to-end "
-            "statement (the monitor holds on every model run) is checked by the monitor on every explored program and proved in "
-            "layers (bookkeeping invariants + per-write exactness from C17), not as one theorem. Buffer growth, set_offset, named "
+            "instruction shapes (opaque non-field bytes, compared byte for byte); harness/driver/diff. The end-to-end theorems are stated on the model's "
+            "ghost log of fixup records with the Spec/Offset field decoder; the last step to the CPU reading of Spec/RefSemantics "
+            "(end of instruction + disp; opcode-based field location) and references encoded directly against an already bound "
+            "label are judged by the monitor on every explored program, not proved. Buffer growth, set_offset, named "
             "labels and the Builder path are not modelled. Model follows the repaired code (fixes/C03-1, C03-2).",
 }
-MODS = ["AsmjitVerif.Props.C03"]
+MODS = ["AsmjitVerif.Props.C03", "AsmjitVerif.Props.C03E"]
 M64 = (1 << 64) - 1
 
 JK = ["jmp", "jz", "call", "jecxz", "loop"]
@@ -42,6 +46,7 @@ class Gen:
         self.r, self.arch, self.c04 = rng, arch, c04
         self.ops = ["init %s %s" % (arch, "-" if init_base is None else "%x" % init_base)]
         self.nl, self.ns, self.bound = 0, 1, set()
+        self.known_base = init_base is not None
         if c04:
             # all user sections first: `.addrtab` is created implicitly by the first patchable jmp/call and must not be
             # mistaken for a user section by a later `section <id>`
@@ -69,7 +74,7 @@ class Gen:
             if r.random() < 0.55:
                 self.ops.append("jmp %s %s %d" % (r.choice(JK), r.choice("dddsl"), l))
             else:
-                d = r.choice((0, 0, 4, 8, -4, 0x10, 0x7FFF, -0x8000, 0x12345, -0x12345, 0x3FFFFFFF, -0x40000000)) & 0xFFFFFFFF
+                d = r.choice((0, 0, 4, 8, -4, 0x10, 0x7FFF, -0x8000, 0x12345, -0x12345, 0x3FFFFFFF, -0x40000000, 0x7FFFFFFF, -0x80000000, -0x7FFFFFFC, -0x7FFFFFF8)) & 0xFFFFFFFF
                 self.ops.append("mem %s %d %x" % (r.choice(MK), l, d))
 
     def absref(self):
@@ -125,7 +130,10 @@ class Gen:
             self.ops.append("align %d" % r.choice((4, 8, 16, 64)))
         else:
             # (no `resolve` in the middle: resolving against a layout that later emissions invalidate is a usage error)
-            self.ops.append(r.choice(("flatten", "flatten", "bind 99", "jmp jmp d 99" if self.arch != "a64" else "a64 b 99 0",
+            # with the base known at init a premature flatten makes the assembler encode absolute targets against a layout that
+            # later emissions invalidate (usage error, like a premature resolve): only programs without a known base flatten early
+            early = "align 8" if self.known_base else "flatten"
+            self.ops.append(r.choice((early, early, "bind 99", "jmp jmp d 99" if self.arch != "a64" else "a64 b 99 0",
                                       "elabel 99 8", "section 9", "newsection 3 0" if not self.c04 else "align 5", "align 3", "elabel 0 3")))
 
     def finish(self, base, bind_rest=0.85):
@@ -380,7 +388,8 @@ def prepare(res, pid, mods):
     return vlib.build_harness("c03"), broken
 
 
-ASSUMPTIONS = ["programs call resolve_cross_section_fixups only after the final flatten (resolving against a stale layout is a usage error); "
+ASSUMPTIONS = ["programs call resolve_cross_section_fixups only after the final flatten, and programs assembled with a known base do not flatten before the end "
+               "(resolving / encoding absolute targets against a layout that later emissions invalidate is a usage error); "
                "user code never switches to the implicit .addrtab section (harness and model answer InvalidSection)",
                "code buffers are byte lists: capacity, realloc and grow_buffer are invisible; emission is append-only (no set_offset)",
                "non-field instruction bytes come from a menu of shapes (compared byte for byte with the real encoders, not proved: C01/C02)",
